@@ -310,6 +310,16 @@ def entries(mod, K):
               'nn': {CV, Ptr('client:lock', ()), Ptr('client:unlock', ()), Ptr('arg:client_mu', ())}})
     E.append({'label': 'nsync_cv_signal', 'fn': 'nsync_cv_signal', 'args': [CV], 'ghost': {}, 'expect': {}, 'nn': {CV}})
     E.append({'label': 'nsync_cv_broadcast', 'fn': 'nsync_cv_broadcast', 'args': [CV], 'ghost': {}, 'expect': {}, 'nn': {CV}})
+    # the cv's nsync_wait_n interface: functions stored in the nsync_cv_waitable_funcs table
+    g = mod.globals.get('nsync_cv_waitable_funcs')
+    if not g or g.get('init', {}).get('k') != 'agg':
+        raise AnalysisBroken('nsync_cv_waitable_funcs table not found')
+    NW = Ptr('arg:nw', ())
+    for k, role in enumerate(('ready_time', 'enqueue', 'dequeue')):
+        fnref = g['init']['elts'][k]
+        if fnref.get('k') != 'func':
+            raise AnalysisBroken('nsync_cv_waitable_funcs.%s is not a function' % role)
+        E.append({'label': 'cv waitable %s (%s)' % (role, fnref['n']), 'fn': fnref['n'], 'args': [CV, NW], 'ghost': {}, 'expect': {}, 'nn': {CV, NW}})
     BUF = Ptr('arg:buf', ())
     for hold in ('none', 'W', 'R'):
         for fn in ('nsync_mu_debug_state', 'nsync_mu_debug_state_and_waiters'):
